@@ -70,3 +70,827 @@ theorem filter_lt_mono (l : List Nat) (n m : Nat) (h : n ≤ m) :
       · simp [h1, h2]; exact ih
 
 end Tftp
+
+namespace Tftp
+
+/-! ### the sender on an acknowledgement of its whole window, on a stale acknowledgement, on a time-out -/
+
+theorem sender_ack_whole (sc : SCfg) (hb : 0 < sc.b) (hw : sc.w < 65536) (f : Bytes) (s : SState)
+    (sinv : SInv sc f s) (srun : s.status = .running) (mpos : 0 < s.win.elems.length) :
+    (s.base - 1 + s.win.elems.length = nblocks sc.b f →
+        (sStep sc s (.ack ((s.base + s.win.elems.length - 1) % 65536)) 0).1.status = .ok ∧
+        (sStep sc s (.ack ((s.base + s.win.elems.length - 1) % 65536)) 0).2 = []) ∧
+    (s.base - 1 + s.win.elems.length < nblocks sc.b f →
+        SInv sc f (sStep sc s (.ack ((s.base + s.win.elems.length - 1) % 65536)) 0).1 ∧
+        (sStep sc s (.ack ((s.base + s.win.elems.length - 1) % 65536)) 0).1.status = .running ∧
+        ((sStep sc s (.ack ((s.base + s.win.elems.length - 1) % 65536)) 0).1.win.eof = false →
+          (sStep sc s (.ack ((s.base + s.win.elems.length - 1) % 65536)) 0).1.win.elems.length = sc.w) ∧
+        0 < (sStep sc s (.ack ((s.base + s.win.elems.length - 1) % 65536)) 0).1.win.elems.length ∧
+        (sStep sc s (.ack ((s.base + s.win.elems.length - 1) % 65536)) 0).1.base = s.base + s.win.elems.length ∧
+        (sStep sc s (.ack ((s.base + s.win.elems.length - 1) % 65536)) 0).1.retry = 0 ∧
+        (sStep sc s (.ack ((s.base + s.win.elems.length - 1) % 65536)) 0).1.since = 0 ∧
+        (sStep sc s (.ack ((s.base + s.win.elems.length - 1) % 65536)) 0).2 =
+          sendWindow sc.rep ((s.base + s.win.elems.length) % 65536)
+            (sStep sc s (.ack ((s.base + s.win.elems.length - 1) % 65536)) 0).1.win.elems) := by
+  have hbase := sinv.base_pos
+  have hlenw := sinv.len_le
+  have hbn := sinv.bn_eq
+  have hdiff : ((s.base + s.win.elems.length - 1) % 65536 + 65536 - s.bn) % 65536 = s.win.elems.length - 1 := by
+    rw [hbn]; omega
+  have hin : ((s.base + s.win.elems.length - 1) % 65536 + 65536 - s.bn) % 65536 < s.win.elems.length := by
+    rw [hdiff]; omega
+  constructor
+  · intro hN
+    have heof : s.win.eof = true := by
+      cases hq : s.win.eof with
+      | true => rfl
+      | false =>
+        exfalso
+        have ⟨_, hc⟩ := sinv.cur hq
+        have : s.base - 1 + s.win.elems.length ≤ f.length / sc.b := by
+          rw [Nat.le_div_iff_mul_le hb]; exact hc
+        unfold nblocks at hN; omega
+    exact ack_step.c07_stop_aux sc hw f s sinv srun heof mpos _ 0 hdiff
+  · intro hlt
+    have heof : s.win.eof = false := by
+      cases hq : s.win.eof with
+      | false => rfl
+      | true => exfalso; have := sinv.fin hq; unfold nblocks at hlt; omega
+    have hfilled : s.filled = true := by rw [sinv.filled_eq, heof]; rfl
+    have hlen : s.win.len = s.win.elems.length := by
+      unfold Window.len; exact Nat.mod_eq_of_lt (by omega)
+    have h0 : SInv sc f { s with since := s.since + 0 } :=
+      ⟨sinv.base_pos, sinv.bn_eq, sinv.elems_eq, sinv.cur, sinv.fin, sinv.len_le, sinv.size_eq, sinv.chunk_eq,
+        sinv.can_read, sinv.filled_eq, sinv.retry_lt⟩
+    have hs' := slide_inv h0 ((s.base + s.win.elems.length - 1) % 65536) hin hw
+    rw [hdiff] at hs'
+    obtain ⟨w', fl, hfill, hinv', _, hfresh', hstrict'⟩ := fill_ok hb hw hs'
+    have hslide_elems : (slide { s with since := s.since + 0 } ((s.base + s.win.elems.length - 1) % 65536)
+        (s.win.elems.length - 1)).win.elems = [] := by
+      simp only [slide]
+      apply List.drop_eq_nil_of_le; omega
+    have hpos' : 0 < w'.elems.length := by
+      have := hstrict' (by simp [slide, heof]) (by rw [hslide_elems]; simp; omega)
+      rw [hslide_elems] at this; simpa using this
+    have hsstep : sStep sc s (.ack ((s.base + s.win.elems.length - 1) % 65536)) 0 =
+        ({ (slide { s with since := s.since + 0 } ((s.base + s.win.elems.length - 1) % 65536) (s.win.elems.length - 1)) with
+            win := w', filled := fl, retry := 0, since := 0 },
+         sendWindow sc.rep (((s.base + s.win.elems.length - 1) % 65536 + 1) % 65536) w'.elems) := by
+      rw [sStep_ack_inwindow sc s _ 0 srun hlen hin, hdiff]
+      have hnf : (slide { s with since := s.since + 0 } ((s.base + s.win.elems.length - 1) % 65536)
+          (s.win.elems.length - 1)).filled = true := by simp [slide, hfilled]
+      simp only [hnf, Bool.not_true, Bool.false_and, Bool.false_eq_true, ↓reduceIte]
+      unfold sOuter
+      rw [hfill]
+      simp only
+      unfold sHead
+      have : sc.timeout + Gen.timeoutBufferMs ≥ sc.timeout := by omega
+      simp only [this, ↓reduceIte]
+      simp [slide]
+    rw [hsstep]
+    refine ⟨?_, ?_, hfresh', hpos', ?_, rfl, rfl, ?_⟩
+    · exact ⟨hinv'.base_pos, hinv'.bn_eq, hinv'.elems_eq, hinv'.cur, hinv'.fin, hinv'.len_le, hinv'.size_eq,
+        hinv'.chunk_eq, hinv'.can_read, hinv'.filled_eq, hinv'.retry_lt⟩
+    · simp [slide, srun]
+    · simp only [slide]; omega
+    · show sendWindow sc.rep _ w'.elems = sendWindow sc.rep _ w'.elems
+      congr 1; omega
+
+/-- a stale acknowledgement while the retransmission timer has not expired changes nothing -/
+theorem sender_ack_stale (sc : SCfg) (ht : 0 < sc.timeout) (s : SState) (srun : s.status = .running)
+    (hsince : s.since = 0) (n : Nat) (hst : ¬ (n + 65536 - s.bn) % 65536 < s.win.len) :
+    sStep sc s (.ack n) 0 = (s, []) := by
+  obtain ⟨bn, win, filled, retry, since, status, base⟩ := s
+  simp only at srun hsince hst
+  subst srun; subst hsince
+  unfold sStep
+  simp only [hst, ↓reduceIte, Nat.add_zero]
+  unfold sHead
+  have : ¬ (0 ≥ sc.timeout) := by omega
+  simp only [this, ↓reduceIte]
+
+/-- a time-out after a full retransmission interval, below the retry bound: the window is sent again -/
+theorem sender_timeout (sc : SCfg) (s : SState) (srun : s.status = .running) (hsince : s.since = 0)
+    (hr : s.retry + 1 ≠ Gen.maxRetries) :
+    sStep sc s .fail sc.timeout =
+      ({ s with retry := s.retry + 1 }, sendWindow sc.rep s.bn s.win.elems) := by
+  obtain ⟨bn, win, filled, retry, since, status, base⟩ := s
+  simp only at srun hsince hr
+  subst srun; subst hsince
+  unfold sStep
+  simp only [hr, ↓reduceIte, Nat.zero_add]
+  unfold sHead
+  simp only [ge_iff_le, Nat.le_refl, ↓reduceIte]
+
+end Tftp
+
+namespace Tftp
+
+/-! ### the lock-step receiver on a retransmitted block and on a time-out -/
+
+theorem recv_dup (rc : RCfg) (r : RState) (rrun : r.status = .running) (rpend : r.win.elems = [])
+    (hcw : r.win.file.canWrite = true) (n : Nat) (p : Bytes) (hn : n ≠ (r.bn + 1) % 65536) :
+    rStep rc r (.data n p) = (r, ackOut rc.rep r.bn r.win.file) := by
+  obtain ⟨bn, win, retry, status, accepted⟩ := r
+  obtain ⟨elems, size, chunk, file, eof⟩ := win
+  simp only at rrun rpend hcw hn
+  subst rrun; subst rpend
+  unfold rStep
+  simp only [hn, ↓reduceIte, Window.isEmpty, List.isEmpty_nil, Bool.not_true, Bool.and_false, Bool.false_eq_true]
+  unfold flushAck Window.empty
+  simp [hcw]
+
+theorem recv_timeout (rc : RCfg) (r : RState) (rrun : r.status = .running) (hr : r.retry + 1 ≠ Gen.maxRetries) :
+    rStep rc r .fail = ({ r with retry := r.retry + 1 }, []) := by
+  obtain ⟨bn, win, retry, status, accepted⟩ := r
+  simp only at rrun hr
+  subst rrun
+  unfold rStep
+  simp only [hr, ↓reduceIte]
+
+theorem RInv.with_retry {rc : RCfg} {r : RState} (h : RInv rc r) (k : Nat) : RInv rc { r with retry := k } :=
+  ⟨h.bn_eq, h.stored, h.pend_lt, h.size_eq, h.can_write, h.full_before, h.ok_final⟩
+
+theorem SInv.with_retry {sc : SCfg} {f : Bytes} {s : SState} (h : SInv sc f s) (k : Nat) (hk : k < Gen.maxRetries) :
+    SInv sc f { s with retry := k } :=
+  ⟨h.base_pos, h.bn_eq, h.elems_eq, h.cur, h.fin, h.len_le, h.size_eq, h.chunk_eq, h.can_read, h.filled_eq,
+    fun _ => hk⟩
+
+end Tftp
+
+namespace Tftp
+
+theorem applyFaults_single_rep {α : Type} (drop dup : List Nat) (n : Nat) (x : α) :
+    ∃ c, applyFaults drop dup n [x] = List.replicate c x ∧ c ≤ 2 ∧ (c = 0 → drop.contains n = true) := by
+  rw [applyFaults_single]
+  by_cases h1 : drop.contains n = true
+  · exact ⟨0, by rw [if_pos h1]; rfl, by omega, fun _ => h1⟩
+  · by_cases h2 : dup.contains n = true
+    · exact ⟨2, by rw [if_neg h1, if_pos h2]; rfl, by omega, by omega⟩
+    · exact ⟨1, by rw [if_neg h1, if_neg h2]; rfl, by omega, by omega⟩
+
+theorem dsf_data_mono (fl : Faults) (nd na : Nat) : dropsSoFar fl nd na ≤ dropsSoFar fl (nd + 1) na := by
+  unfold dropsSoFar
+  have := filter_lt_mono fl.dropData nd (nd + 1) (by omega)
+  omega
+
+theorem dsf_ack_mono (fl : Faults) (nd na : Nat) : dropsSoFar fl nd na ≤ dropsSoFar fl nd (na + 1) := by
+  unfold dropsSoFar
+  have := filter_lt_mono fl.dropAck na (na + 1) (by omega)
+  omega
+
+theorem dsf_data_drop (fl : Faults) (nd na : Nat) (h : fl.dropData.contains nd = true) :
+    dropsSoFar fl nd na + 1 ≤ dropsSoFar fl (nd + 1) na := by
+  unfold dropsSoFar
+  have := filter_lt_succ_of_mem fl.dropData nd h
+  omega
+
+theorem dsf_ack_drop (fl : Faults) (nd na : Nat) (h : fl.dropAck.contains na = true) :
+    dropsSoFar fl nd na + 1 ≤ dropsSoFar fl nd (na + 1) := by
+  unfold dropsSoFar
+  have := filter_lt_succ_of_mem fl.dropAck na h
+  omega
+
+/-- lock-step parameters: windowsize 1 on both sides, one copy per datagram, a positive retransmission interval -/
+structure LockCfg (sc : SCfg) (rc : RCfg) : Prop where
+  hb : 0 < sc.b
+  hw : sc.w = 1
+  hrep : sc.rep = 1
+  ht : 0 < sc.timeout
+  rb : rc.b = sc.b
+  rw : rc.w = 1
+  rrep : rc.rep = 1
+
+/-- the lock-step closed loop while the receiver is still running: the sender is on block `B`, the receiver
+has `R ∈ {B-1, B}` blocks; in flight are copies of DATA `B` and, in this order, `i` stale acknowledgements
+(of `B-1`) and `j` acknowledgements of `B`; a time-out never happens without a loss that pays for it -/
+structure LS (sc : SCfg) (rc : RCfg) (fl : Faults) (f : Bytes) (st : NetState) (B R i j : Nat) : Prop where
+  sinv : SInv sc f st.s
+  srun : st.s.status = .running
+  sbase : st.s.base = B
+  slen : st.s.win.elems.length = 1
+  ssince : st.s.since = 0
+  rinv : RInv rc st.r
+  rrun : st.r.status = .running
+  rpend : st.r.win.elems = []
+  rrecv : st.r.received = blocksUpTo sc.b f R
+  rel : R + 1 = B ∨ R = B
+  rlt : R < nblocks sc.b f
+  dq_all : ∀ x ∈ st.dq, x = (B % 65536, blk sc.b f B)
+  aq_eq : st.aq = List.replicate i ((B + 65535) % 65536) ++ List.replicate j (B % 65536)
+  jpos : 0 < j → R = B
+  sretry : st.s.retry ≤ st.timeouts
+  rretry : st.r.retry ≤ st.timeouts
+  debt : st.timeouts + (if st.dq ≠ [] ∨ 0 < j then 0 else 1) ≤ dropsSoFar fl st.nd st.na
+
+/-- the termination measure of the lock-step loop -/
+def lsMeasure (sc : SCfg) (fl : Faults) (f : Bytes) (st : NetState) (B R i j : Nat) : Nat :=
+  (nblocks sc.b f - R) + 6 * (nblocks sc.b f + 1 - B) + 7 * (dropsTotal fl - st.timeouts) + 3 * st.dq.length + (i + j)
+
+/-- facts every `LS` state gives -/
+theorem LS.facts {sc : SCfg} {rc : RCfg} {fl : Faults} {f : Bytes} {st : NetState} {B R i j : Nat}
+    (lc : LockCfg sc rc) (h : LS sc rc fl f st B R i j) :
+    1 ≤ B ∧ B ≤ nblocks sc.b f ∧ st.s.win.elems = [blk sc.b f B] ∧ st.s.bn = B % 65536 ∧
+      st.r.bn = R % 65536 ∧ st.s.win.len = 1 := by
+  have hb1 := h.sinv.base_pos
+  have hle := inv_range lc.hb h.sinv 0 (by rw [h.slen]; omega)
+  have he := h.sinv.elems_eq 0 (by rw [h.slen]; omega)
+  have hR : st.r.accepted.length = R := by
+    have h1 : st.r.received.length = st.r.accepted.length := by simp [RState.received]
+    have h2 := congrArg List.length h.rrecv
+    rw [blocksUpTo_length] at h2
+    omega
+  refine ⟨by rw [← h.sbase]; exact hb1, by rw [← h.sbase]; simpa using hle, ?_, by rw [h.sinv.bn_eq, h.sbase],
+    by rw [h.rinv.bn_eq, hR], by unfold Window.len; rw [h.slen]⟩
+  have hlen := h.slen
+  match hel : st.s.win.elems, hlen with
+  | [e], _ =>
+    rw [hel] at he
+    simp at he
+    rw [he, ← h.sbase]
+    unfold blk
+    simp
+
+theorem rStep_data_retry (c : RCfg) (s : RState) (n : Nat) (p : Bytes) :
+    (rStep c s (.data n p)).1.retry ≤ s.retry := by
+  unfold rStep
+  split
+  · simp only
+    split
+    · split
+      · split
+        · unfold markOk flushAck
+          split <;> (simp only; split <;> simp)
+        · split
+          · unfold flushAck
+            split <;> simp
+          · simp
+      · simp
+    · split
+      · simp
+      · unfold flushAck
+        split <;> simp
+  · simp
+
+/-- the lock-step closed loop after the receiver has ended with the complete file: the sender is on the final
+block `N`; in flight are copies of DATA `N` (which nobody reads any more), `i` stale acknowledgements and `j`
+copies of the final acknowledgement - and if there is none, the (only) final acknowledgement was lost -/
+structure LF (sc : SCfg) (rc : RCfg) (fl : Faults) (f : Bytes) (st : NetState) (i j : Nat) : Prop where
+  sinv : SInv sc f st.s
+  srun : st.s.status = .running
+  sbase : st.s.base = nblocks sc.b f
+  slen : st.s.win.elems.length = 1
+  ssince : st.s.since = 0
+  rok : st.r.status = .ok
+  rfile : st.r.win.file.content = f
+  aq_eq : st.aq = List.replicate i ((nblocks sc.b f + 65535) % 65536) ++ List.replicate j (nblocks sc.b f % 65536)
+  lost : j = 0 → fl.dropAck.contains (st.na - 1) = true
+
+/-- what the outcome of one lock-step scheduling step has to be -/
+def LSNext (sc : SCfg) (rc : RCfg) (fl : Faults) (f : Bytes) (st : NetState) (B R i j : Nat) (st' : NetState) : Prop :=
+  (∃ i' j', LF sc rc fl f st' i' j') ∨
+  ∃ B' R' i' j', LS sc rc fl f st' B' R' i' j' ∧ lsMeasure sc fl f st' B' R' i' j' < lsMeasure sc fl f st B R i j
+
+theorem ackOut_one (n : Nat) (fl : FileSt) : (ackOut 1 n fl).map (·.n) = [n] := rfl
+
+/-- **a DATA datagram is delivered** -/
+theorem ls_data (sc : SCfg) (rc : RCfg) (lc : LockCfg sc rc) (fl : Faults) (f : Bytes)
+    (s : SState) (r : RState) (n : Nat) (d : Bytes) (rest : List (Nat × Bytes)) (aq : List Nat) (nd na tmo : Nat)
+    (B R i j : Nat) (h : LS sc rc fl f ⟨s, r, (n, d) :: rest, aq, nd, na, tmo⟩ B R i j) :
+    ∃ st', netStep sc rc fl ⟨s, r, (n, d) :: rest, aq, nd, na, tmo⟩ = some st' ∧
+      LSNext sc rc fl f ⟨s, r, (n, d) :: rest, aq, nd, na, tmo⟩ B R i j st' := by
+  obtain ⟨hB1, hBN, hel, hsbn, hrbn, hslen⟩ := h.facts lc
+  obtain ⟨sinv, srun, sbase, slen, ssince, rinv, rrun, rpend, rrecv, rel, rlt, dq_all, aq_eq, jpos, sretry, rretry, debt⟩ := h
+  simp only at sinv srun sbase slen ssince rinv rrun rpend rrecv dq_all aq_eq sretry rretry debt hel hsbn hrbn hslen
+  have hx := dq_all (n, d) (by simp)
+  injection hx with hn hd
+  have hrest : ∀ x ∈ rest, x = (B % 65536, blk sc.b f B) := fun x hx => dq_all x (by simp [hx])
+  have hstep : netStep sc rc fl ⟨s, r, (n, d) :: rest, aq, nd, na, tmo⟩ =
+      some (emitAcks fl ⟨s, (rStep rc r (.data n d)).1, rest, aq, nd, na, tmo⟩ (rStep rc r (.data n d)).2) := by
+    simp only [netStep, receiverRunning, rrun, beq_self_eq_true, ↓reduceIte]
+  have hw' : rc.w < 65536 := by rw [lc.rw]; omega
+  have hdebt0 : tmo ≤ dropsSoFar fl nd na := by
+    have : ((n, d) :: rest ≠ [] ∨ 0 < j) := Or.inl (by simp)
+    simp only [this, ↓reduceIte, Nat.add_zero] at debt
+    exact debt
+  refine ⟨_, hstep, ?_⟩
+  rcases rel with hrel | hrel
+  · -- the receiver is waiting for exactly this block
+    have hseq : n = (r.bn + 1) % 65536 := by rw [hn, hrbn]; omega
+    have hj0 : j = 0 := by
+      cases j with
+      | zero => rfl
+      | succ k => have := jpos (by omega); omega
+    subst hj0
+    obtain ⟨hri, hrr, hfin, hfull, _⟩ := rStep_inseq rc hw' r rinv rrun n d hseq
+    have hrecv' : (rStep rc r (.data n d)).1.received = blocksUpTo sc.b f B := by
+      rw [hrr, rrecv, ← hrel, blocksUpTo_succ, hd, hrel]
+    by_cases hshort : d.length < rc.b
+    · left
+      obtain ⟨h1, _, h3, h4⟩ := hfin hshort
+      have hN : B = nblocks sc.b f := by
+        have := (blk_length_lt_iff sc.b lc.hb f B hB1 hBN).mp (by rw [← hd, ← lc.rb]; exact hshort)
+        exact this
+      obtain ⟨c, hc, hc2, hc0⟩ := applyFaults_single_rep fl.dropAck fl.dupAck na n
+      have hst' : emitAcks fl ⟨s, (rStep rc r (.data n d)).1, rest, aq, nd, na, tmo⟩ (rStep rc r (.data n d)).2 =
+          ⟨s, (rStep rc r (.data n d)).1, rest, aq ++ List.replicate c n, nd, na + 1, tmo⟩ := by
+        unfold emitAcks
+        simp only [h3, lc.rrep, ackOut_one, hc, List.length_singleton]
+      rw [hst']
+      refine ⟨i, c, sinv, srun, by rw [sbase, hN], slen, ssince, h1, ?_, ?_, ?_⟩
+      · show (rStep rc r (.data n d)).1.win.file.content = f
+        rw [h4, hrecv', hN]
+        unfold blocksUpTo
+        rw [blocks_flatten, take_all_blocks sc.b lc.hb f]
+      · show aq ++ List.replicate c n = _
+        rw [aq_eq, hn, ← hN]; simp
+      · intro hc00
+        show fl.dropAck.contains (na + 1 - 1) = true
+        exact hc0 hc00
+    · right
+      have hBlt : B < nblocks sc.b f := by
+        have hne : B ≠ nblocks sc.b f := by
+          intro he
+          have := (blk_length_lt_iff sc.b lc.hb f B hB1 hBN).mpr he
+          rw [← hd, ← lc.rb] at this
+          exact hshort this
+        omega
+      obtain ⟨h1, h2, h3⟩ := hfull hshort (by rw [rpend, lc.rw]; rfl)
+      obtain ⟨c, hc, hc2, hc0⟩ := applyFaults_single_rep fl.dropAck fl.dupAck na n
+      have hst' : emitAcks fl ⟨s, (rStep rc r (.data n d)).1, rest, aq, nd, na, tmo⟩ (rStep rc r (.data n d)).2 =
+          ⟨s, (rStep rc r (.data n d)).1, rest, aq ++ List.replicate c n, nd, na + 1, tmo⟩ := by
+        unfold emitAcks
+        simp only [h3, lc.rrep, ackOut_one, hc, List.length_singleton]
+      rw [hst']
+      refine ⟨B, B, i, c, ⟨sinv, srun, sbase, slen, ssince, hri, h1, h2, hrecv', Or.inr rfl, hBlt, hrest, ?_, fun _ => rfl,
+        sretry, ?_, ?_⟩, ?_⟩
+      · show aq ++ List.replicate c n = _
+        rw [aq_eq, hn]; simp
+      · show (rStep rc r (.data n d)).1.retry ≤ tmo
+        exact Nat.le_trans (rStep_data_retry rc r n d) rretry
+      · show tmo + (if rest ≠ [] ∨ 0 < c then 0 else 1) ≤ dropsSoFar fl nd (na + 1)
+        by_cases hc00 : c = 0
+        · have := dsf_ack_drop fl nd na (hc0 hc00)
+          split <;> omega
+        · have := dsf_ack_mono fl nd na
+          have : (rest ≠ [] ∨ 0 < c) := Or.inr (by omega)
+          simp only [this, ↓reduceIte]; omega
+      · unfold lsMeasure
+        simp only [List.length_cons]
+        omega
+  · -- a retransmission of the block the receiver already has: it repeats its acknowledgement
+    right
+    have hne : n ≠ (r.bn + 1) % 65536 := by rw [hn, hrbn, hrel]; omega
+    have hdup := recv_dup rc r rrun rpend rinv.can_write n d hne
+    obtain ⟨c, hc, hc2, hc0⟩ := applyFaults_single_rep fl.dropAck fl.dupAck na r.bn
+    have hst' : emitAcks fl ⟨s, (rStep rc r (.data n d)).1, rest, aq, nd, na, tmo⟩ (rStep rc r (.data n d)).2 =
+        ⟨s, r, rest, aq ++ List.replicate c r.bn, nd, na + 1, tmo⟩ := by
+      unfold emitAcks
+      simp only [hdup, lc.rrep, ackOut_one, hc, List.length_singleton]
+    rw [hst']
+    refine ⟨B, R, i, j + c, ⟨sinv, srun, sbase, slen, ssince, rinv, rrun, rpend, rrecv, Or.inr hrel, rlt, hrest, ?_,
+      fun _ => hrel, sretry, rretry, ?_⟩, ?_⟩
+    · show aq ++ List.replicate c r.bn = _
+      rw [aq_eq, hrbn, hrel, List.append_assoc, List.replicate_append_replicate]
+    · show tmo + (if rest ≠ [] ∨ 0 < j + c then 0 else 1) ≤ dropsSoFar fl nd (na + 1)
+      by_cases hc00 : c = 0
+      · have := dsf_ack_drop fl nd na (hc0 hc00)
+        split <;> omega
+      · have := dsf_ack_mono fl nd na
+        have : (rest ≠ [] ∨ 0 < j + c) := Or.inr (by omega)
+        simp only [this, ↓reduceIte]; omega
+    · unfold lsMeasure
+      simp only [List.length_cons]
+      omega
+
+end Tftp
+
+namespace Tftp
+
+theorem dataOf_single (bn : Nat) (e : Bytes) : dataOf (sendWindow 1 bn [e]) = [(bn, e)] := by
+  simp [sendWindow, sendPacket, dataOf]
+
+/-- **an acknowledgement is delivered** -/
+theorem ls_ack (sc : SCfg) (rc : RCfg) (lc : LockCfg sc rc) (fl : Faults) (f : Bytes)
+    (s : SState) (r : RState) (a : Nat) (arest : List Nat) (nd na tmo : Nat)
+    (B R i j : Nat) (h : LS sc rc fl f ⟨s, r, [], a :: arest, nd, na, tmo⟩ B R i j) :
+    ∃ st', netStep sc rc fl ⟨s, r, [], a :: arest, nd, na, tmo⟩ = some st' ∧
+      LSNext sc rc fl f ⟨s, r, [], a :: arest, nd, na, tmo⟩ B R i j st' := by
+  obtain ⟨hB1, hBN, hel, hsbn, hrbn, hslen⟩ := h.facts lc
+  obtain ⟨sinv, srun, sbase, slen, ssince, rinv, rrun, rpend, rrecv, rel, rlt, dq_all, aq_eq, jpos, sretry, rretry, debt⟩ := h
+  simp only at sinv srun sbase slen ssince rinv rrun rpend rrecv dq_all aq_eq sretry rretry debt hel hsbn hrbn hslen
+  have hstep : netStep sc rc fl ⟨s, r, [], a :: arest, nd, na, tmo⟩ =
+      some (emitData fl ⟨(sStep sc s (.ack a) 0).1, r, [], arest, nd, na, tmo⟩ (sStep sc s (.ack a) 0).2) := by
+    simp only [netStep, senderRunning, srun, beq_self_eq_true, Bool.true_or, ↓reduceIte]
+  refine ⟨_, hstep, ?_⟩
+  right
+  cases i with
+  | succ i' =>
+    -- a stale acknowledgement: nothing happens
+    have ha : a = (B + 65535) % 65536 ∧ arest = List.replicate i' ((B + 65535) % 65536) ++ List.replicate j (B % 65536) := by
+      rw [List.replicate_succ, List.cons_append] at aq_eq
+      injection aq_eq with h1 h2
+      exact ⟨h1, h2⟩
+    have hst : ¬ (a + 65536 - s.bn) % 65536 < s.win.len := by rw [ha.1, hsbn, hslen]; omega
+    have hno := sender_ack_stale sc lc.ht s srun ssince a hst
+    have hst' : emitData fl ⟨(sStep sc s (.ack a) 0).1, r, [], arest, nd, na, tmo⟩ (sStep sc s (.ack a) 0).2 =
+        ⟨s, r, [], arest, nd, na, tmo⟩ := by
+      unfold emitData
+      simp [hno, dataOf, applyFaults]
+    rw [hst']
+    refine ⟨B, R, i', j, ⟨sinv, srun, sbase, slen, ssince, rinv, rrun, rpend, rrecv, rel, rlt, by simp, ha.2, jpos,
+      sretry, rretry, debt⟩, ?_⟩
+    unfold lsMeasure
+    simp only [List.length_nil]
+    omega
+  | zero =>
+    cases j with
+    | zero => simp at aq_eq
+    | succ j' =>
+      have ha : a = B % 65536 ∧ arest = List.replicate j' (B % 65536) := by
+        rw [List.replicate_zero, List.nil_append, List.replicate_succ] at aq_eq
+        injection aq_eq with h1 h2
+        exact ⟨h1, h2⟩
+      have hRB : R = B := jpos (by omega)
+      have hBlt : B < nblocks sc.b f := by omega
+      have hw' : sc.w < 65536 := by rw [lc.hw]; omega
+      obtain ⟨_, hmore⟩ := sender_ack_whole sc lc.hb hw' f s sinv srun (by rw [slen]; omega)
+      have han : (s.base + s.win.elems.length - 1) % 65536 = a := by rw [slen, sbase, ha.1]; congr 1
+      rw [han] at hmore
+      obtain ⟨hi', hrun', hfresh', hpos', hbase', hretry', hsince', hout'⟩ := hmore (by rw [slen, sbase]; omega)
+      have hlen' : (sStep sc s (.ack a) 0).1.win.elems.length = 1 := by
+        have := hi'.len_le
+        rw [lc.hw] at this
+        omega
+      have hel' : (sStep sc s (.ack a) 0).1.win.elems = [blk sc.b f (B + 1)] := by
+        have he := hi'.elems_eq 0 (by rw [hlen']; omega)
+        match hq : (sStep sc s (.ack a) 0).1.win.elems, hlen' with
+        | [e], _ =>
+          rw [hq] at he
+          simp at he
+          rw [he, hbase', slen, sbase]
+          unfold blk
+          simp
+      obtain ⟨c, hc, hc2, hc0⟩ := applyFaults_single_rep fl.dropData fl.dupData nd ((B + 1) % 65536, blk sc.b f (B + 1))
+      have hst' : emitData fl ⟨(sStep sc s (.ack a) 0).1, r, [], arest, nd, na, tmo⟩ (sStep sc s (.ack a) 0).2 =
+          ⟨(sStep sc s (.ack a) 0).1, r, List.replicate c ((B + 1) % 65536, blk sc.b f (B + 1)), arest, nd + 1, na, tmo⟩ := by
+        unfold emitData
+        simp only [hout', hel', lc.hrep, slen, sbase, dataOf_single, hc, List.nil_append, List.length_singleton]
+      rw [hst']
+      refine ⟨B + 1, R, j', 0, ⟨hi', hrun', by rw [hbase', slen, sbase], hlen', hsince', rinv, rrun, rpend, rrecv,
+        Or.inl (by omega), rlt, ?_, ?_, by omega, by rw [hretry']; omega, rretry, ?_⟩, ?_⟩
+      · intro x hx
+        exact List.eq_of_mem_replicate hx
+      · show arest = _
+        have hm : (B + 1 + 65535) % 65536 = B % 65536 := by omega
+        rw [ha.2, List.replicate_zero, List.append_nil, hm]
+      · show tmo + (if List.replicate c ((B + 1) % 65536, blk sc.b f (B + 1)) ≠ [] ∨ 0 < 0 then 0 else 1) ≤
+          dropsSoFar fl (nd + 1) na
+        have hold : tmo ≤ dropsSoFar fl nd na := by
+          have : (([] : List (Nat × Bytes)) ≠ [] ∨ 0 < j' + 1) := Or.inr (by omega)
+          simp only [this, ↓reduceIte, Nat.add_zero] at debt
+          exact debt
+        by_cases hc00 : c = 0
+        · have := dsf_data_drop fl nd na (hc0 hc00)
+          split <;> omega
+        · have := dsf_data_mono fl nd na
+          have hne : (List.replicate c ((B + 1) % 65536, blk sc.b f (B + 1)) ≠ [] ∨ 0 < 0) := by
+            left
+            cases c with
+            | zero => omega
+            | succ k => simp [List.replicate_succ]
+          simp only [hne, ↓reduceIte]; omega
+      · unfold lsMeasure
+        simp only [List.length_nil, List.length_replicate]
+        omega
+
+end Tftp
+
+namespace Tftp
+
+/-- **nothing in flight**: both sides time out; the loss that caused it pays for the attempt -/
+theorem ls_quiet (sc : SCfg) (rc : RCfg) (lc : LockCfg sc rc) (fl : Faults) (hT : dropsTotal fl < Gen.maxRetries)
+    (f : Bytes) (s : SState) (r : RState) (nd na tmo : Nat)
+    (B R i j : Nat) (h : LS sc rc fl f ⟨s, r, [], [], nd, na, tmo⟩ B R i j) :
+    ∃ st', netStep sc rc fl ⟨s, r, [], [], nd, na, tmo⟩ = some st' ∧
+      LSNext sc rc fl f ⟨s, r, [], [], nd, na, tmo⟩ B R i j st' := by
+  obtain ⟨hB1, hBN, hel, hsbn, hrbn, hslen⟩ := h.facts lc
+  obtain ⟨sinv, srun, sbase, slen, ssince, rinv, rrun, rpend, rrecv, rel, rlt, dq_all, aq_eq, jpos, sretry, rretry, debt⟩ := h
+  simp only at sinv srun sbase slen ssince rinv rrun rpend rrecv dq_all aq_eq sretry rretry debt hel hsbn hrbn hslen
+  have hij : i = 0 ∧ j = 0 := by
+    have := congrArg List.length aq_eq
+    simp at this
+    omega
+  obtain ⟨hi0, hj0⟩ := hij
+  subst hi0; subst hj0
+  have hdebt : tmo + 1 ≤ dropsSoFar fl nd na := by
+    have : ¬ (([] : List (Nat × Bytes)) ≠ [] ∨ 0 < 0) := by simp
+    simp only [this, ↓reduceIte] at debt
+    exact debt
+  have hle := dropsSoFar_le_total fl nd na
+  have hrs : s.retry + 1 ≠ Gen.maxRetries := by omega
+  have hrr : r.retry + 1 ≠ Gen.maxRetries := by omega
+  have hs := sender_timeout sc s srun ssince hrs
+  have hr := recv_timeout rc r rrun hrr
+  obtain ⟨c, hc, hc2, hc0⟩ := applyFaults_single_rep fl.dropData fl.dupData nd (B % 65536, blk sc.b f B)
+  have hstep : netStep sc rc fl ⟨s, r, [], [], nd, na, tmo⟩ =
+      some ⟨{ s with retry := s.retry + 1 }, { r with retry := r.retry + 1 },
+        List.replicate c (B % 65536, blk sc.b f B), [], nd + 1, na, tmo + 1⟩ := by
+    simp only [netStep, senderRunning, receiverRunning, srun, rrun, beq_self_eq_true, Bool.true_or, Bool.not_true,
+      Bool.false_and, Bool.false_eq_true, ↓reduceIte, hs, hr]
+    unfold emitData
+    simp only [hel, lc.hrep, hsbn, dataOf_single, hc, List.nil_append, List.length_singleton]
+  refine ⟨_, hstep, ?_⟩
+  right
+  refine ⟨B, R, 0, 0, ⟨sinv.with_retry _ (by omega), srun, sbase, slen, ssince, rinv.with_retry _, rrun, rpend, rrecv, rel, rlt,
+    ?_, by simpa using aq_eq, jpos, ?_, ?_, ?_⟩, ?_⟩
+  · intro x hx
+    exact List.eq_of_mem_replicate hx
+  · show s.retry + 1 ≤ tmo + 1
+    omega
+  · show r.retry + 1 ≤ tmo + 1
+    omega
+  · show tmo + 1 + (if List.replicate c (B % 65536, blk sc.b f B) ≠ [] ∨ 0 < 0 then 0 else 1) ≤ dropsSoFar fl (nd + 1) na
+    by_cases hc00 : c = 0
+    · have := dsf_data_drop fl nd na (hc0 hc00)
+      split <;> omega
+    · have := dsf_data_mono fl nd na
+      have hne : (List.replicate c (B % 65536, blk sc.b f B) ≠ [] ∨ 0 < 0) := by
+        left
+        cases c with
+        | zero => omega
+        | succ k => simp [List.replicate_succ]
+      simp only [hne, ↓reduceIte]; omega
+  · unfold lsMeasure
+    simp only [List.length_nil, List.length_replicate]
+    omega
+
+/-- one scheduling step from any lock-step state -/
+theorem ls_step (sc : SCfg) (rc : RCfg) (lc : LockCfg sc rc) (fl : Faults) (hT : dropsTotal fl < Gen.maxRetries)
+    (f : Bytes) (st : NetState) (B R i j : Nat) (h : LS sc rc fl f st B R i j) :
+    ∃ st', netStep sc rc fl st = some st' ∧ LSNext sc rc fl f st B R i j st' := by
+  obtain ⟨s, r, dq, aq, nd, na, tmo⟩ := st
+  cases dq with
+  | cons x rest =>
+    obtain ⟨n, d⟩ := x
+    exact ls_data sc rc lc fl f s r n d rest aq nd na tmo B R i j h
+  | nil =>
+    cases aq with
+    | cons a arest => exact ls_ack sc rc lc fl f s r a arest nd na tmo B R i j h
+    | nil => exact ls_quiet sc rc lc fl hT f s r nd na tmo B R i j h
+
+end Tftp
+
+namespace Tftp
+
+/-- the loop starts in a lock-step state: DATA 1 in flight (unless the schedule loses it) -/
+theorem ls_init (sc : SCfg) (rc : RCfg) (lc : LockCfg sc rc) (fl : Faults) (f : Bytes) :
+    LS sc rc fl f (netInit sc rc fl f) 1 0 0 0 := by
+  have hw' : sc.w < 65536 := by rw [lc.hw]; omega
+  have h0 := init_inv sc f
+  have hrun := inv_status h0 .running (Or.inr (by simp))
+  obtain ⟨w', flg, hfill, hinv', _, hfresh', hstrict'⟩ := fill_ok lc.hb hw' hrun
+  have hpos' : 0 < w'.elems.length := by
+    have := hstrict' (by simp [Window.new]) (by simp [Window.new]; rw [lc.hw]; omega)
+    simpa [Window.new] using this
+  have hinit : sInit sc f false =
+      ({ bn := 1, win := w', filled := flg, retry := 0, since := 0, status := .running, base := 1 },
+       sendWindow sc.rep 1 w'.elems) := by
+    unfold sInit
+    simp only [Bool.false_eq_true, ↓reduceIte]
+    unfold sOuter
+    simp only at hfill
+    rw [hfill]
+    simp only
+    unfold sHead
+    have : sc.timeout + Gen.timeoutBufferMs ≥ sc.timeout := by omega
+    simp only [this, ↓reduceIte]
+  have hsinv : SInv sc f { bn := 1, win := w', filled := flg, retry := 0, since := 0, status := .running, base := 1 } :=
+    ⟨hinv'.base_pos, hinv'.bn_eq, hinv'.elems_eq, hinv'.cur, hinv'.fin, hinv'.len_le, hinv'.size_eq,
+      hinv'.chunk_eq, hinv'.can_read, hinv'.filled_eq, hinv'.retry_lt⟩
+  have hlen' : w'.elems.length = 1 := by
+    have := hinv'.len_le
+    simp only at this
+    rw [lc.hw] at this
+    omega
+  have hel' : w'.elems = [blk sc.b f 1] := by
+    have he := hsinv.elems_eq 0 (by show 0 < w'.elems.length; omega)
+    simp only at he
+    match hq : w'.elems, hlen' with
+    | [e], _ =>
+      rw [hq] at he
+      simp at he
+      rw [he]
+      unfold blk
+      simp
+  obtain ⟨c, hc, hc2, hc0⟩ := applyFaults_single_rep fl.dropData fl.dupData 0 (1, blk sc.b f 1)
+  have hst : netInit sc rc fl f =
+      ⟨{ bn := 1, win := w', filled := flg, retry := 0, since := 0, status := .running, base := 1 }, rInit rc,
+        List.replicate c (1, blk sc.b f 1), [], 1, 0, 0⟩ := by
+    unfold netInit
+    rw [hinit]
+    unfold emitData
+    simp only [hel', lc.hrep, dataOf_single, hc, List.nil_append, List.length_singleton]
+  rw [hst]
+  have hrw : 1 ≤ rc.w := by rw [lc.rw]; omega
+  refine ⟨hsinv, rfl, rfl, hlen', rfl, rInit_inv rc hrw, rfl, by simp [rInit, Window.new],
+    by simp [rInit, RState.received, blocksUpTo], Or.inl rfl, Nat.succ_pos _, ?_, rfl, by omega,
+    by show 0 ≤ 0; omega, by show (rInit rc).retry ≤ 0; simp [rInit], ?_⟩
+  · intro x hx
+    have := List.eq_of_mem_replicate hx
+    rw [this]
+  · show 0 + (if List.replicate c (1, blk sc.b f 1) ≠ [] ∨ 0 < 0 then 0 else 1) ≤ dropsSoFar fl 1 0
+    by_cases hc00 : c = 0
+    · have := dsf_data_drop fl 0 0 (hc0 hc00)
+      simp only [Nat.zero_add] at this
+      split <;> omega
+    · have hne : (List.replicate c (1, blk sc.b f 1) ≠ [] ∨ 0 < 0) := by
+        left
+        cases c with
+        | zero => omega
+        | succ k => simp [List.replicate_succ]
+      simp only [hne, ↓reduceIte]; omega
+
+end Tftp
+
+namespace Tftp
+
+/-! ### after the receiver has ended: the sender hears the final acknowledgement, or gives up (RFC 1350's exception) -/
+
+theorem sender_timeout_giveup (sc : SCfg) (s : SState) (srun : s.status = .running) (dt : Nat)
+    (hr : s.retry + 1 = Gen.maxRetries) :
+    (sStep sc s .fail dt).1.status = .failed ∧ (sStep sc s .fail dt).2 = [] := by
+  obtain ⟨bn, win, filled, retry, since, status, base⟩ := s
+  simp only at srun hr
+  subst srun
+  unfold sStep
+  simp only [hr, ↓reduceIte, and_self]
+
+/-- how the lock-step loop ends: the receiver holds the complete file and has ended successfully; the sender
+has ended successfully too - or has given up, and then the final acknowledgement was lost -/
+def LFDone (fl : Faults) (f : Bytes) (st : NetState) : Prop :=
+  st.r.status = .ok ∧ st.r.win.file.content = f ∧
+    (st.s.status = .ok ∨ (st.s.status = .failed ∧ fl.dropAck.contains (st.na - 1) = true))
+
+def lfMeasure (st : NetState) (i j : Nat) : Nat :=
+  7 * (Gen.maxRetries - st.s.retry) + 3 * st.dq.length + (i + j)
+
+theorem lf_step (sc : SCfg) (rc : RCfg) (lc : LockCfg sc rc) (fl : Faults) (f : Bytes) (st : NetState) (i j : Nat)
+    (h : LF sc rc fl f st i j) :
+    ∃ st', netStep sc rc fl st = some st' ∧
+      (LFDone fl f st' ∨ ∃ i' j', LF sc rc fl f st' i' j' ∧ lfMeasure st' i' j' < lfMeasure st i j) := by
+  obtain ⟨s, r, dq, aq, nd, na, tmo⟩ := st
+  obtain ⟨sinv, srun, sbase, slen, ssince, rok, rfile, aq_eq, lost⟩ := h
+  simp only at sinv srun sbase slen ssince rok rfile aq_eq lost
+  have hsbn : s.bn = nblocks sc.b f % 65536 := by rw [sinv.bn_eq, sbase]
+  have hslen : s.win.len = 1 := by unfold Window.len; rw [slen]
+  have hretry : s.retry < Gen.maxRetries := sinv.retry_lt (by rw [srun]; simp)
+  have hN1 : 1 ≤ nblocks sc.b f := Nat.succ_pos _
+  cases dq with
+  | cons x rest =>
+    -- nobody reads DATA any more
+    refine ⟨⟨s, r, rest, aq, nd, na, tmo⟩, ?_, Or.inr ⟨i, j, ⟨sinv, srun, sbase, slen, ssince, rok, rfile, aq_eq, lost⟩, ?_⟩⟩
+    · obtain ⟨n, d⟩ := x
+      simp only [netStep, receiverRunning, rok]
+      rfl
+    · unfold lfMeasure
+      simp only [List.length_cons]
+      omega
+  | nil =>
+    cases aq with
+    | cons a arest =>
+      have hstep : netStep sc rc fl ⟨s, r, [], a :: arest, nd, na, tmo⟩ =
+          some (emitData fl ⟨(sStep sc s (.ack a) 0).1, r, [], arest, nd, na, tmo⟩ (sStep sc s (.ack a) 0).2) := by
+        simp only [netStep, senderRunning, srun, beq_self_eq_true, Bool.true_or, ↓reduceIte]
+      refine ⟨_, hstep, ?_⟩
+      cases i with
+      | succ i' =>
+        right
+        have ha : a = (nblocks sc.b f + 65535) % 65536 ∧
+            arest = List.replicate i' ((nblocks sc.b f + 65535) % 65536) ++ List.replicate j (nblocks sc.b f % 65536) := by
+          rw [List.replicate_succ, List.cons_append] at aq_eq
+          injection aq_eq with h1 h2
+          exact ⟨h1, h2⟩
+        have hst : ¬ (a + 65536 - s.bn) % 65536 < s.win.len := by rw [ha.1, hsbn, hslen]; omega
+        have hno := sender_ack_stale sc lc.ht s srun ssince a hst
+        have hst' : emitData fl ⟨(sStep sc s (.ack a) 0).1, r, [], arest, nd, na, tmo⟩ (sStep sc s (.ack a) 0).2 =
+            ⟨s, r, [], arest, nd, na, tmo⟩ := by
+          unfold emitData
+          simp [hno, dataOf, applyFaults]
+        rw [hst']
+        refine ⟨i', j, ⟨sinv, srun, sbase, slen, ssince, rok, rfile, ha.2, lost⟩, ?_⟩
+        unfold lfMeasure
+        simp only [List.length_nil]
+        omega
+      | zero =>
+        cases j with
+        | zero => simp at aq_eq
+        | succ j' =>
+          -- the final acknowledgement arrives
+          left
+          have ha : a = nblocks sc.b f % 65536 := by
+            rw [List.replicate_zero, List.nil_append, List.replicate_succ] at aq_eq
+            injection aq_eq with h1 _
+          have hw' : sc.w < 65536 := by rw [lc.hw]; omega
+          obtain ⟨hlast, _⟩ := sender_ack_whole sc lc.hb hw' f s sinv srun (by rw [slen]; omega)
+          have han : (s.base + s.win.elems.length - 1) % 65536 = a := by rw [slen, sbase, ha]; congr 1
+          rw [han] at hlast
+          obtain ⟨h1, h2⟩ := hlast (by rw [slen, sbase]; omega)
+          refine ⟨rok, rfile, Or.inl ?_⟩
+          show (emitData fl _ _).s.status = .ok
+          unfold emitData
+          exact h1
+    | nil =>
+      have hij : i = 0 ∧ j = 0 := by
+        have := congrArg List.length aq_eq
+        simp at this
+        omega
+      obtain ⟨hi0, hj0⟩ := hij
+      subst hi0; subst hj0
+      have hnr : receiverRunning r = false := by simp [receiverRunning, rok]
+      have hsr : senderRunning s = true := by simp [senderRunning, srun]
+      by_cases hr : s.retry + 1 = Gen.maxRetries
+      · -- the budget is used up: the sender gives up; the final acknowledgement had been lost
+        obtain ⟨h1, h2⟩ := sender_timeout_giveup sc s srun sc.timeout hr
+        refine ⟨emitData fl ⟨(sStep sc s .fail sc.timeout).1, r, [], [], nd, na, tmo + 1⟩ (sStep sc s .fail sc.timeout).2, ?_, Or.inl ?_⟩
+        · simp only [netStep, hnr, hsr, Bool.not_true, Bool.false_and, Bool.false_eq_true, ↓reduceIte]
+        · refine ⟨rok, rfile, Or.inr ⟨?_, lost rfl⟩⟩
+          show (emitData fl _ _).s.status = .failed
+          unfold emitData
+          exact h1
+      · have hs := sender_timeout sc s srun ssince hr
+        have hel : s.win.elems = [blk sc.b f (nblocks sc.b f)] := by
+          have he := sinv.elems_eq 0 (by rw [slen]; omega)
+          match hq : s.win.elems, slen with
+          | [e], _ =>
+            rw [hq] at he
+            simp at he
+            rw [he, sbase]
+            unfold blk
+            simp
+        obtain ⟨c, hc, hc2, hc0⟩ :=
+          applyFaults_single_rep fl.dropData fl.dupData nd (nblocks sc.b f % 65536, blk sc.b f (nblocks sc.b f))
+        have hstep : netStep sc rc fl ⟨s, r, [], [], nd, na, tmo⟩ =
+            some ⟨{ s with retry := s.retry + 1 }, r,
+              List.replicate c (nblocks sc.b f % 65536, blk sc.b f (nblocks sc.b f)), [], nd + 1, na, tmo + 1⟩ := by
+          simp only [netStep, hnr, hsr, Bool.not_true, Bool.false_and, Bool.false_eq_true, ↓reduceIte, hs]
+          unfold emitData
+          simp only [hel, lc.hrep, hsbn, dataOf_single, hc, List.nil_append, List.length_singleton]
+        refine ⟨_, hstep, Or.inr ⟨0, 0, ⟨sinv.with_retry _ (by omega), srun, sbase, slen, ssince, rok, rfile,
+          by simpa using aq_eq, lost⟩, ?_⟩⟩
+        unfold lfMeasure
+        simp only [List.length_nil, List.length_replicate]
+        omega
+
+theorem lf_run (sc : SCfg) (rc : RCfg) (lc : LockCfg sc rc) (fl : Faults) (f : Bytes) :
+    ∀ (m : Nat) (st : NetState) (i j : Nat), LF sc rc fl f st i j → lfMeasure st i j ≤ m →
+      ∃ fuel, LFDone fl f (netRun sc rc fl fuel st) := by
+  intro m
+  induction m with
+  | zero =>
+    intro st i j h hm
+    exfalso
+    have hretry : st.s.retry < Gen.maxRetries := h.sinv.retry_lt (by rw [h.srun]; simp)
+    unfold lfMeasure at hm
+    omega
+  | succ m ih =>
+    intro st i j h hm
+    obtain ⟨st', hstep, hnext⟩ := lf_step sc rc lc fl f st i j h
+    rcases hnext with hdone | ⟨i', j', h', hlt⟩
+    · exact ⟨1, by simp only [netRun, hstep]; exact hdone⟩
+    · obtain ⟨fuel, hd⟩ := ih st' i' j' h' (by omega)
+      exact ⟨fuel + 1, by simp only [netRun, hstep]; exact hd⟩
+
+/-- from any lock-step state the loop runs to its end -/
+theorem ls_run (sc : SCfg) (rc : RCfg) (lc : LockCfg sc rc) (fl : Faults) (hT : dropsTotal fl < Gen.maxRetries)
+    (f : Bytes) : ∀ (m : Nat) (st : NetState) (B R i j : Nat), LS sc rc fl f st B R i j →
+      lsMeasure sc fl f st B R i j ≤ m → ∃ fuel, LFDone fl f (netRun sc rc fl fuel st) := by
+  intro m
+  induction m with
+  | zero =>
+    intro st B R i j h hm
+    exfalso
+    have := h.rlt
+    unfold lsMeasure at hm
+    omega
+  | succ m ih =>
+    intro st B R i j h hm
+    obtain ⟨st', hstep, hnext⟩ := ls_step sc rc lc fl hT f st B R i j h
+    rcases hnext with ⟨i', j', hf⟩ | ⟨B', R', i', j', h', hlt⟩
+    · obtain ⟨fuel, hd⟩ := lf_run sc rc lc fl f _ st' i' j' hf (Nat.le_refl _)
+      exact ⟨fuel + 1, by simp only [netRun, hstep]; exact hd⟩
+    · obtain ⟨fuel, hd⟩ := ih st' B' R' i' j' h' (by omega)
+      exact ⟨fuel + 1, by simp only [netRun, hstep]; exact hd⟩
+
+/-- **lock-step loss tolerance** (RFC 1350, windowsize 1): for every file and block size, and for every fault
+schedule that duplicates any datagrams and loses fewer datagrams in total than the retry bound, the closed
+loop of the sender model and the receiver model runs to an end in which the receiver has ended
+successfully with a byte-identical copy; the sender has ended successfully as well unless the final
+acknowledgement was among the lost datagrams, in which case it has given up - the one exception the RFC
+permits. No bound on the number of blocks (the 16-bit numbers wrap). -/
+theorem lockstep_loss_tolerance (sc : SCfg) (rc : RCfg) (lc : LockCfg sc rc) (fl : Faults)
+    (hT : fl.dropData.length + fl.dropAck.length < Gen.maxRetries) (f : Bytes) :
+    ∃ fuel, LFDone fl f (netRun sc rc fl fuel (netInit sc rc fl f)) :=
+  ls_run sc rc lc fl hT f _ _ 1 0 0 0 (ls_init sc rc lc fl f) (Nat.le_refl _)
+
+end Tftp
